@@ -122,7 +122,7 @@ def b5_length_tests(prog, ctx):
                 continue
             for x, y in ((lit.lhs, lit.rhs), (lit.rhs, lit.lhs)):
                 cv = y.const_value()
-                if cv is None or cv < 2:
+                if cv is None or cv < 2 or cv >= 2 ** 31:      # an overflow guard (SIZE_MAX / n) is not a limit any text can meet
                     continue
                 xs = x.strip()
                 is_len = xs.k == "CallExpr" and xs.j.get("callee") in ("strlen", "strnlen")
@@ -265,5 +265,5 @@ def run(prog, ctx):
     b6_stack_copies(prog, ctx)
     ctx.floor("C14 fixed char arrays in lib/", len(la), 3)
     ctx.floor("C14 fixed char arrays in util/", len(ua), 6)
-    ctx.floor("C14 write sites", len(ls) + len(us), 25)
+    ctx.floor("C14 write sites", len(ls) + len(us), 12)
     ctx.floor("C14 exact-fit allocations", len(lf) + len(uf), 3)
